@@ -29,7 +29,7 @@ LEVEL_NOTE = ("Trusted: Lean kernel + standard axioms; the translation of API st
               "that serif's operations allocate fresh objects where the model says so is established only on the executed histories "
               "(counts in the evidence).")
 
-DERIVE = {"newvec", "newtab", "tabfrom", "copy", "slice", "mask", "select", "stack", "stackdict", "append", "appendt", "T",
+DERIVE = {"newvec", "newtab", "tabfrom", "copy", "slice", "mask", "select", "stack", "stackdict", "stackdictv", "append", "appendt", "T",
           "sort", "sortv", "aggregate", "window", "join", "arith", "tarith", "compare", "unary", "fillna", "sharevec"}
 
 
@@ -40,7 +40,7 @@ def model_op(st, res, extra, obs):
             return {"m": "noop"}
         if op == "write" and obs[st["r"]] is not None and obs[st["r"]]["k"] == "v":
             return {"m": "mutate", "r": st["r"]}
-        if op in ("tabwrite", "setattr", "rename", "renames") and obs[st["t"]] is not None and obs[st["t"]]["k"] == "t":
+        if op in ("tabwrite", "setattr", "setattr_list", "rename", "renames") and obs[st["t"]] is not None and obs[st["t"]]["k"] == "t":
             return {"m": "tabmutate", "t": st["t"]}
         return {"m": "noop"}
     if op in DERIVE:
@@ -53,6 +53,10 @@ def model_op(st, res, extra, obs):
         return {"m": "getcol", "dst": st["dst"], "t": st["t"], "j": extra["is_col"]}
     if op == "setattr":
         return {"m": "setattr", "t": st["t"], "j": st["j"], "src": st["src"]}
+    if op == "setattr_list":
+        # the column is replaced by a fresh vector built from the list: what it shows is taken from the observation
+        col = obs[st["t"]]["cols"][st["j"]]
+        return {"m": "setattr_val", "t": st["t"], "j": st["j"], "val": {"k": "v", "data": col["data"], "dtype": col["dtype"], "name": col["name"]}}
     if op in ("write", "setname"):
         return {"m": "mutate", "r": st["r"]}
     if op in ("tabwrite", "rename", "renames"):
